@@ -64,6 +64,31 @@ fn c11_adapt_combine() {
     assert!(!give.noop, "C11.K.adapt.combine.noop: a scaling pair is never a no-op");
 }
 
+//@h {"id":"C11.K.adapt.combine.unit","props":["C11","C13"],"tier":"quick","kind":"complete","timeout":1800,"text":"combine_descriptors for all 24x24 axis orders x 16x16 orientation patterns with UNIT magnitudes (multipliers +1/-1, the case of descriptors differing only in axis direction): the pair is flagged a no-op exactly when both descriptors declare the same axis at every position with the same orientation; otherwise post/mult carry the permutation and the sign flips"}
+#[kani::proof]
+#[kani::unwind(34)]
+fn c11_adapt_combine_unit() {
+    let (pf, pt) = (any_perm(), any_perm());
+    let sf: [bool; 4] = kani::any();
+    let st: [bool; 4] = kani::any();
+    let from = CoordinateOrderDescriptor { post: pf, mult: [sgn(sf[0]), sgn(sf[1]), sgn(sf[2]), sgn(sf[3])], noop: false };
+    let to = CoordinateOrderDescriptor { post: pt, mult: [sgn(st[0]), sgn(st[1]), sgn(st[2]), sgn(st[3])], noop: false };
+    let give = combine_descriptors(&from, &to);
+    let mut same = true;
+    let mut k = 0;
+    while k < 4 {
+        if pf[k] != pt[k] || sf[k] != st[k] {
+            same = false;
+        }
+        k += 1;
+    }
+    assert!(give.noop == same, "C11.K.adapt.combine.unit.noop: no-op exactly when order and orientation of all four axes agree");
+    let i: usize = kani::any();
+    kani::assume(i < 4);
+    let j = source_of(&from, &to, i);
+    assert!(give.post[i] == j && give.mult[i] == from.mult[j] / to.mult[i], "C11.K.adapt.combine.unit.map: permutation and sign of output i");
+}
+
 //@h {"id":"C11.K.adapt.fwd","props":["C11","C10","C09"],"tier":"quick","kind":"complete","timeout":1800,"text":"adapt fwd on the probe tuple for all axis orders x signs: out[i] = in[j] * from.mult[j] / to.mult[i] exactly; returns n; (parameter accessors replaced by their contract)"}
 #[kani::proof]
 #[kani::unwind(9)]
